@@ -22,6 +22,7 @@ HARNESSES = {
 BOUNDS = {'quick': {'K1': 2, 'K2': 2, 'K3': 1, 'K4': 1, 'K5': 1, 'K6': 1, 'K7': 1, 'K8': 1, 'K9': 1, 'K10': 1, 'K11': 1},
           'thorough': {'K1': 3, 'K2': 3, 'K3': 2, 'K4': 2, 'K5': 2, 'K6': 2, 'K7': 2, 'K8': 2, 'K9': 2, 'K10': 2, 'K11': 2}}
 PARTS = 16
+CLOSURE = {'quick': ['K1'], 'thorough': ['K1', 'K2', 'K3', 'K4', 'K6', 'K7', 'K8', 'K9', 'K10', 'K11']}      # harnesses searched over *all* interleavings (lv.sched_closure)
 
 
 def judge(ex, hname):
@@ -81,12 +82,13 @@ class C12(F.Check):
     assumptions = [
         'scheduling points: every source line of lomond/{websocket,session,compression,frame,mask}.py, lock acquire/release, sendall midpoint; interleavings finer than a source line are not explored (the GIL makes bytecodes atomic)',
         'the receive path (parser, frame_parser, stream, message) is private to the loop thread and runs without scheduling points',
-        'preemption-bounded, not exhaustive over all interleavings; the clause "randomly beyond the bound" is outside this family',
+        'two searches: (1) preemption-bounded over every harness; (2) for the 2-thread harnesses listed under CLOSURE an explicit-state search over ALL interleavings (lv.sched_closure: state = every thread\'s lomond frame stack with locals + heap reachable from the WebSocket + bytes on the wire), complete unless a cap is reported; the clause "randomly beyond the bound" is outside this family',
     ]
     expect_sites = tuple('harness:' + k for k in HARNESSES)
 
     def rule(self, tier):
-        return ('harnesses %s; preemption bounds %s; every schedule is a full execution on fresh objects. '
+        return ('all-interleavings search for %s; ' % CLOSURE[tier] +
+                'harnesses %s; preemption bounds %s; every schedule is a full execution on fresh objects. '
                 'distinct = distinct (harness, wire opcode sequence, per-call outcomes)' % (sorted(HARNESSES), BOUNDS[tier]))
 
     def bounds(self, tier):
@@ -102,6 +104,8 @@ class C12(F.Check):
                 chunk = items[k::PARTS]
                 if chunk:
                     jobs.append({'h': h, 'bound': bound, 'items': [[p, u, m] for (p, u, m) in chunk], 'first': k == 0})
+        for h in CLOSURE[tier]:
+            jobs.append({'h': h, 'closure': True})
         return jobs
 
     def run_job(self, job):
@@ -109,6 +113,27 @@ class C12(F.Check):
         hname = job['h']
         run_one = thr.make_runner(dict(HARNESSES[hname], name=hname))
         res.covered.add('harness:' + hname)
+        if job.get('closure'):
+            from .. import sched_closure
+
+            def on_full(ex):
+                res.executions += 1
+                frames = tuple(f.opcode for f in ex.frames)
+                calls = tuple((r[0], r[1]) for t in sorted(ex.sched.results) for r in ex.sched.results[t])
+                res.outcomes[repr((hname, frames, calls))] += 1
+                for kind, msg in judge(ex, hname):
+                    res.violate('C12:%s:%s' % (hname, kind), msg + ' [found by the all-interleavings search]',
+                                {'h': hname, 'choices': list(ex.sched.taken)})
+            r = sched_closure.explore_all(run_one, on_full, max_states=300000)
+            res.states |= set(F.hs((hname, 'closure', k)) for k in r['seen'])
+            res.n_transitions += r['transitions']
+            res.counters['closure_states:' + hname] = r['states']
+            res.counters['closure_runs:' + hname] = r['runs']
+            res.covered.add('closure:' + hname)
+            if r['capped']:
+                res.caps.append('all-interleavings search of %s capped at %d states' % (hname, r['states']))
+            res.samples.append({'all_interleavings': hname, 'states': r['states'], 'executions': r['runs'], 'complete': not r['capped']})
+            return res
 
         def on_exec(ex):
             res.executions += 1
